@@ -9,8 +9,46 @@ from vlib import core, oracles, smt
 MODES = ['zero', 'symmetric', 'reflect', 'periodic', 'periodization']
 
 
+# user-supplied filter banks (not in PyWavelets' catalogue; given to the library as tuples of arrays, to PyWavelets as Wavelet(filter_bank=...));
+# synthesis/analysis equality with PyWavelets does not need perfect reconstruction
+CUSTOM = {
+    'custom:rot2': dict(dec_lo=[0.6, 0.8], dec_hi=[-0.8, 0.6], rec_lo=[0.8, 0.6], rec_hi=[0.6, -0.8]),          # orthogonal 2-tap, not Haar
+    'custom:asym4': dict(dec_lo=[0.25, 0.5, -0.125, 1.0], dec_hi=[0.5, -1.0, 0.75, 0.125], rec_lo=[1.0, -0.25, 0.5, 0.125], rec_hi=[-0.5, 0.25, 1.0, -0.75]),
+}
+
+
+def W(wave):
+    """what to hand to PyWavelets for this configuration's wavelet ('pair:a|b' = wavelet a along the columns (axis -2), b along the rows: 2-D only)"""
+    if isinstance(wave, str) and wave.startswith('pair:'):
+        a, b = wave[5:].split('|')
+        return (pywt.Wavelet(a), pywt.Wavelet(b))
+    if isinstance(wave, str) and wave in CUSTOM:
+        c = CUSTOM[wave]
+        return pywt.Wavelet(wave, filter_bank=[c['dec_lo'], c['dec_hi'], c['rec_lo'], c['rec_hi']])
+    return wave
+
+
+def lib_wave(wave, inverse):
+    """what to hand to pytorch_wavelets"""
+    if isinstance(wave, str) and wave.startswith('pair:'):
+        a, b = W(wave)
+        f = [a.rec_lo, a.rec_hi, b.rec_lo, b.rec_hi] if inverse else [a.dec_lo, a.dec_hi, b.dec_lo, b.dec_hi]
+        return tuple(np.array(v, dtype=float) for v in f)
+    if isinstance(wave, str) and wave in CUSTOM:
+        c = CUSTOM[wave]
+        ks = ('rec_lo', 'rec_hi') if inverse else ('dec_lo', 'dec_hi')
+        return tuple(np.array(c[k], dtype=float) for k in ks)
+    if isinstance(wave, list):
+        return tuple(np.array(f, dtype=float) for f in wave)
+    return wave
+
+
 def filt_len(wave):
-    return pywt.Wavelet(wave).dec_len if isinstance(wave, str) else len(wave[0])
+    if isinstance(wave, str) and wave.startswith('pair:'):
+        return max(w.dec_len for w in W(wave))
+    if isinstance(wave, str):
+        return W(wave).dec_len if wave in CUSTOM else pywt.Wavelet(wave).dec_len
+    return len(wave[0])
 
 
 def level_lengths(n, L, mode, J):
@@ -98,6 +136,53 @@ def reflect_short_any(n, L, J):
     return False
 
 
+# ---- calling contexts ---------------------------------------------------------------------------------
+
+CTXS = ('nograd', 'transposed', 'chlast', 'reqgrad')
+
+
+def torch_of(pw):
+    return symtorch.shim() if pw is symtorch.sym() else symtorch.real_torch()
+
+
+def _as_view(t, how):
+    if how == 'transposed' and t.dim() >= 4:
+        return t.transpose(-1, -2).contiguous().transpose(-1, -2)
+    if how in ('chlast', 'transposed') and t.dim() == 3:
+        return t.transpose(1, 2).contiguous().transpose(1, 2)
+    if how == 'chlast' and t.dim() == 4:
+        return t.permute(0, 2, 3, 1).contiguous().permute(0, 3, 1, 2)
+    if how == 'chlast' and t.dim() == 5:
+        return t.permute(0, 2, 3, 4, 1).contiguous().permute(0, 4, 1, 2, 3)
+    return t
+
+
+def _resolved(o):
+    """symbolic copy: outputs of autograd Functions are opaque atoms on the tape; substitute their values"""
+    from symtorch import autograd as AG
+    if isinstance(o, T.Tensor):
+        return T.Tensor(AG.resolve(o), dtype=o.dtype) if o.a.dtype == object else o
+    if isinstance(o, (list, tuple)):
+        return type(o)(_resolved(v) for v in o)
+    return o
+
+
+def call_ctx(pw, cfg, fn, ts):
+    """run fn(ts) the way the configuration says the user calls the library: cfg['ctx'] in (None,) + CTXS.
+    The transform is the same function of the values in every context."""
+    how = cfg.get('ctx')
+    if not how:
+        return fn(ts)
+    tt = torch_of(pw)
+    if how == 'nograd':
+        with tt.no_grad():
+            return fn(ts)
+    if how == 'reqgrad':
+        out = fn([t.detach().clone().requires_grad_(True) if t is not None else None for t in ts])
+        return _resolved(out) if pw is symtorch.sym() else out
+    return fn([None if t is None else _as_view(t, how) for t in ts])
+
+
 # ---- generic pieces for linear entry points ------------------------------------------------
 
 def real_module(kind, cfg):
@@ -105,9 +190,7 @@ def real_module(kind, cfg):
 
 
 def make_module(pw, kind, cfg):
-    w = cfg['wave']
-    if isinstance(w, list):
-        w = tuple(np.array(f, dtype=float) for f in w)
+    w = lib_wave(cfg['wave'], kind.startswith('inv'))
     if kind == 'fwd1':
         return pw.DWT1DForward(J=cfg['J'], wave=w, mode=cfg['mode'])
     if kind == 'inv1':
@@ -164,15 +247,15 @@ def canary_ok(res, d, atom, tau):
 def pyramid_shapes(cfg):
     """shapes (per slice) of the pyramid PyWavelets produces for the configured signal size: (yl_shape, [yh_shapes finest first])"""
     if cfg['dim'] == 1:
-        c = pywt.wavedec(np.zeros(cfg['N']), cfg['wave'], mode=cfg['mode'], level=cfg['J'])
+        c = pywt.wavedec(np.zeros(cfg['N']), W(cfg['wave']), mode=cfg['mode'], level=cfg['J'])
         return c[0].shape, [b.shape for b in c[1:][::-1]]
-    c = pywt.wavedec2(np.zeros((cfg['H'], cfg['W'])), cfg['wave'], mode=cfg['mode'], level=cfg['J'])
+    c = pywt.wavedec2(np.zeros((cfg['H'], cfg['W'])), W(cfg['wave']), mode=cfg['mode'], level=cfg['J'])
     return c[0].shape, [(3,) + b[0].shape for b in c[1:][::-1]]
 
 
 def pywt_rec(cfg, yl, yh):
     """PyWavelets reconstruction of (yl, [yh finest first]) with leading batch axes allowed; None levels allowed"""
     if cfg['dim'] == 1:
-        return pywt.waverec([yl] + [h for h in yh[::-1]], cfg['wave'], mode=cfg['mode'], axis=-1)
+        return pywt.waverec([yl] + [h for h in yh[::-1]], W(cfg['wave']), mode=cfg['mode'], axis=-1)
     co = [yl] + [None if h is None else tuple(np.take(h, i, axis=-3) for i in range(3)) for h in yh[::-1]]
-    return pywt.waverec2(co, cfg['wave'], mode=cfg['mode'], axes=(-2, -1))
+    return pywt.waverec2(co, W(cfg['wave']), mode=cfg['mode'], axes=(-2, -1))
